@@ -53,8 +53,10 @@ PROPS = {
     'C12': {
         'abi_module': 'AbiC12',
         'stages': quick_thorough(
-            [{'name': 'layouts', 'sub': 'c12', 'n': 1500}],
-            [{'name': 'layouts', 'sub': 'c12', 'n': 60000}]),
+            [{'name': 'layouts', 'sub': 'c12', 'n': 1500},
+             {'name': 'live', 'sub': 'tl', 'n': 10, 'args': ['c12', 'stackbytes'], 'timeout': 600}],
+            [{'name': 'layouts', 'sub': 'c12', 'n': 60000},
+             {'name': 'live', 'sub': 'tl', 'n': 300, 'args': ['c12', 'stackbytes'], 'timeout': 3000}]),
         'assumptions': [
             "hypotheses of C12_refines: kernel extent inside the mapping extent (C13 RunOf) and mappings sharing an address agree on executability; the generator produces such layouts",
             "64-bit little-endian words (x86-64)",
@@ -65,9 +67,9 @@ PROPS = {
         'abi_module': 'AbiC20',
         'stages': quick_thorough(
             [{'name': 'scan', 'sub': 'c20', 'n': 1000},
-             {'name': 'live', 'sub': 'tl', 'n': 30, 'args': ['c20', 'included', 'listed', 'regs'], 'timeout': 600}],
+             {'name': 'live', 'sub': 'tl', 'n': 30, 'args': ['c20', 'included', 'listed', 'regs', 'region'], 'timeout': 600}],
             [{'name': 'scan', 'sub': 'c20', 'n': 40000},
-             {'name': 'live', 'sub': 'tl', 'n': 1000, 'args': ['c20', 'included', 'listed', 'regs'], 'timeout': 3000}]),
+             {'name': 'live', 'sub': 'tl', 'n': 1000, 'args': ['c20', 'included', 'listed', 'regs', 'region'], 'timeout': 3000}]),
         'assumptions': ["64-bit little-endian words (x86-64)"],
         'partial': 'the pure stage drives the public scan; the inclusion decision with the instruction pointer, the soft error and the records of excluded stacks are exercised by the live stage',
     },
@@ -123,10 +125,10 @@ PROPS = {
         'stages': quick_thorough(
             [{'name': 'table', 'sub': 'ctxuc', 'n': 300},
              {'name': 'ptable', 'sub': 'ctxpt', 'n': 150},
-             {'name': 'live', 'sub': 'tl', 'n': 40, 'args': ['c05', 'crashctx', 'exception'], 'timeout': 600}],
+             {'name': 'live', 'sub': 'tl', 'n': 40, 'args': ['c05', 'crashctx', 'exception', 'regs'], 'timeout': 600}],
             [{'name': 'table', 'sub': 'ctxuc', 'n': 20000},
              {'name': 'ptable', 'sub': 'ctxpt', 'n': 10000},
-             {'name': 'live', 'sub': 'tl', 'n': 1500, 'args': ['c05', 'crashctx', 'exception'], 'timeout': 3000}]),
+             {'name': 'live', 'sub': 'tl', 'n': 1500, 'args': ['c05', 'crashctx', 'exception', 'regs'], 'timeout': 3000}]),
         'assumptions': ["ss/ds/es are not part of a ucontext and are not claimed"],
         'partial': 'K1 (blamed thread absent) is a recorded finding',
     },
